@@ -7,6 +7,7 @@ package crdt
 import (
 	"encoding/json"
 	"fmt"
+	octx "github.com/orda-io/orda/client/pkg/context"
 	"io"
 	"strconv"
 	"strings"
@@ -85,9 +86,24 @@ type Rep struct {
 }
 
 // NewRep creates a LOCAL_ONLY client with one datatype of the given type.
-func NewRep(idx int, typ string) *Rep {
+func NewRep(idx int, typ string) *Rep { return newRep(idx, typ, "") }
+
+// newRep: with a non-empty cuid the client is given that id BEFORE the datatype is created
+// (through the client record every datatype context of the client points to, reached from a
+// throw-away datatype), so that the datatype under test is exactly as the library creates it -
+// identifiers, rollback base and creation operation included.
+func newRep(idx int, typ string, cuid string) *Rep {
 	c := orda.NewClient(orda.NewLocalClientConfig("col"), "c"+strconv.Itoa(idx))
 	QuietClient(c)
+	if cuid != "" {
+		seed := c.CreateCounter("-seed-", nil)
+		if sw, ok := seed.(iface.Datatype); ok {
+			sw.SetLogger(Quiet)
+			if dc, ok := sw.GetCtx().(*octx.DatatypeContext); ok && dc.ClientContext != nil && dc.ClientContext.Client != nil {
+				dc.ClientContext.Client.CUID = cuid
+			}
+		}
+	}
 	var dt orda.Datatype
 	switch typ {
 	case "list":
@@ -123,7 +139,10 @@ func SeededCUID(r interface{ Intn(int) int }) string {
 // installed through GetMeta/SetMeta, the mechanism snapshot restore itself uses, before
 // any operation other than the creation snapshot operation exists.
 func NewRepCUID(idx int, typ string, cuid string) *Rep {
-	r := NewRep(idx, typ)
+	r := newRep(idx, typ, cuid)
+	if r.W.GetCUID() == cuid {
+		return r // created under the chosen id: nothing installed afterwards
+	}
 	meta, err := r.W.GetMeta()
 	if err != nil {
 		panic(err)
